@@ -21,7 +21,7 @@ META = {
             "mj_invConstraint and the primal solvers both call mj_constraintUpdate(_impl)). "
             "Oracle on implementation output (random mjgen models with equality, friction-loss, limit, pyramidal and elliptic contacts of condim 1/3/4/6, tendons, springs/dampers, actuators, "
             "gravity compensation, joint and Cartesian applied forces; Euler, implicit, implicitfast; Newton, CG, PGS (PGS with pyramidal cones only, see C10-F1); mjDSBL_EULERDAMP / mjDSBL_DAMPER): "
-            "qfrc_inverse - applied = forward residual to 1e-9 for the primal solvers whether converged or not; after a converged forward solve qfrc_inverse = qfrc_applied + J'xfrc_applied + "
+            "qfrc_inverse - applied = forward residual to 1e-9 for the primal solvers whether converged or not; a solver that stops before its iteration limit must leave a forward residual below 1e-6*scale (a larger one is a wrong qacc, not non-convergence); after a converged forward solve qfrc_inverse = qfrc_applied + J'xfrc_applied + "
             "qfrc_actuator and efc_force(inverse) = efc_force(forward) to 1e-6*scale (1e-4*scale for PGS, whose stopping test bounds its accuracy only loosely), also with mjENBL_INVDISCRETE at the discrete acceleration produced by mj_Euler / mj_implicit (plus 1e5 x the forward residual, which the constraint stiffness amplifies there), and the "
             "mj_compareFwdInv statistics equal the independently computed norms. The fixed scene of the repaired finding C09-F1 (one damped hinge, Euler, dampers disabled) is checked on every run.",
     "note": "Trusted: Coq kernel + std-lib real-number axioms; hand-written models Model/FwdInv.v, Model/ConstraintUpdate.v; correspondence harness (gcc, drivers c09_fwdinv.c / c12_update.c, "
@@ -81,6 +81,7 @@ def parse(line):
     r["tbias"] = nums(1)[0] if p < len(t) else 0.0
     r["ds"], r["jnt_m2"], r["jnt_single"], r["anyd"] = ints(4) if p + 4 <= len(t) else (0, 0, 0, 1)
     r["nisland"], r["noninv"], r["enable"], r["disable"], r["sparse"] = ints(5) if p + 5 <= len(t) else (0, 0, 0, 0, 0)
+    r["nfree"], r["lowfree"] = ints(2) if p + 2 <= len(t) else (0, 0)
     return r
 
 
@@ -220,7 +221,7 @@ def oracle(ctx, recs, stats):
         combos[name] = combos.get(name, 0) + 1
         case = {"src": r["cfg"]["src"], "replay": {"seed": r["seed"], "step": r["step"]}, "integrator": INTEG[r["integ"]], "solver": SOLVER[r["solver"]],
                 "cone": "elliptic" if r["cone"] else "pyramidal", "mjDSBL_EULERDAMP": bool(r["eoff"]), "mjDSBL_DAMPER": bool(r["doff"]), "nv": nv, "nefc": r["nefc"],
-                "islands": r["nisland"], "island permutation not an involution": bool(r["noninv"]), "enableflags": r["enable"], "disableflags": r["disable"],
+                "islands": r["nisland"], "dofs outside every island": r["nfree"], "one of them below an island dof": bool(r["lowfree"]), "island permutation not an involution": bool(r["noninv"]), "enableflags": r["enable"], "disableflags": r["disable"],
                 "sparse jacobian": bool(r["sparse"]), "max |tendon-armature bias|": r["tbias"], "damping-source stratum": r["ds"], "joints with several damped/armature actuators": r["jnt_m2"], "rows": {"equality": r["ne"], "friction": r["nf"], "elliptic": r["nell"], "pyramidal": r["npyr"], "limit": r["nlim"]}, "niter": r["niter"]}
         sig0 = {"integrator": INTEG[r["integ"]], "cone": case["cone"]}
         def viol(site, cls, expected, observed, theorem):
@@ -253,6 +254,14 @@ def oracle(ctx, recs, stats):
             viol("mj_compareFwdInv", "fwdinv-statistic", {"fwdinv[0]": n0, "fwdinv[1]": n1}, {"solver_fwdinv": r["fwdinv"]}, "C09 (solver_fwdinv statistics)")
         elif r["nefc"] > 0:
             stats.add("solver_fwdinv = independently computed norms")
+        # a solver that stops before its iteration limit REPORTS convergence: the forward equation M qacc = qfrc_smooth + qfrc_constraint must then
+        # hold (1e-6*scale: far above what Newton / CG leave behind at tolerance 1e-14); a larger residual is not "unconverged", it is a wrong qacc
+        if r["niter"] < r["maxiter"] and mx(res) / sc > 1e-6:
+            worst = max(range(nv), key=lambda i: abs(res[i]))
+            viol("mj_fwdConstraint", "forward-equation-violated", "M qacc - qfrc_smooth - qfrc_constraint = 0 within 1e-6*scale after the solver reported convergence",
+                 {"relative forward residual": mx(res) / sc, "worst dof": worst, "residual there": res[worst], "qfrc_inverse - applied there": mis[worst],
+                  "dofs outside every island": r["nfree"], "one of them below an island dof": bool(r["lowfree"])}, "C09_identity (forward_solution)")
+            continue
         conv = r["niter"] < r["maxiter"] and mx(res) / sc <= 1e-9
         if not conv:
             stats.add("forward solve not converged (skipped)")
@@ -361,6 +370,11 @@ def run(ctx):
     nni = ctx.cov["records_by_option"]["diagexact with a non-involutive island permutation"]
     if not rep and nni < 5:
         ctx.broken.append(("oracle", "too few records combine diagexact with islands whose rows interleave in efc order", "%d" % nni))
+    ctx.cov["records_by_option"]["dofs outside every island"] = sum(1 for r in recs if r["nfree"] > 0)
+    ctx.cov["records_by_option"]["an unconstrained dof below an island dof, warm start on, Newton/CG"] = nlf = sum(
+        1 for r in recs if r["lowfree"] and not (r["disable"] & (1 << 9)) and r["solver"] != 0)
+    if not rep and nlf < 5:
+        ctx.broken.append(("oracle", "too few records have an unconstrained tree whose dofs precede an island's dofs", "%d" % nlf))
     ntb = sum(1 for r in recs if r["tbias"] > 1e-6)
     ctx.cov["records_with_nonzero_tendon_armature_bias"] = ntb
     if not rep and ntb < 0.1 * max(1, len(recs)):
